@@ -11,7 +11,7 @@
 
 enum { E_NOP, E_THROW, E_LIBTHROW, E_TRY, E_CATCH, E_END, E_CALL, E_RET, E_GARBAGE, E_NOPS };
 static const OpInfo OPS[E_NOPS] = {
-  [E_NOP] = { "nop", 1 },      /* flags: 1 = a self-contained construct that throws a stack object and requires the handler to be bound to it */
+  [E_NOP] = { "nop", 1 },      /* flags: 1 = a self-contained construct that throws a stack object and requires the handler to be bound to it; 2 = one whose filter elements' Cmp runs a try/catch */
   [E_THROW] = { "throw", 2 },  /* kind; flags: 1 = throw the twin (an equal but distinct object), 2 = a message argument whose Show
                                   handles an exception of its own, 4 = the collector's next registration collects */
   [E_LIBTHROW] = { "libthrow", 1 },
@@ -60,7 +60,7 @@ static int parse_stmt(Prog* p, OpStream* s, int depth) {
   TNode* t = &p->n[p->nn]; int idx = p->nn++;
   memset(t, 0, sizeof *t); t->id = idx;
   switch (o->code) {
-    case E_NOP: t->kind = S_NOP; t->arg = (int)(o->a[0] & 1); break;
+    case E_NOP: t->kind = S_NOP; t->arg = (int)(o->a[0] & 3); break;
     case E_THROW: t->kind = S_THROW; t->arg = (int)(((o->a[0] % NKIND) + NKIND) % NKIND) | ((o->a[1] & 1) ? 8 : 0); t->f[0] = (int)(o->a[1] & 6); break;
     case E_GARBAGE: t->kind = S_GARBAGE; t->arg = 1 + (int)(((o->a[0] % 8) + 8) % 8); t->f[0] = (int)(((o->a[1] % NKIND) + NKIND) % NKIND); break;
     case E_LIBTHROW: t->kind = g_nolib ? S_THROW : S_LIBTHROW; t->arg = (int)(((o->a[0] % NKIND) + NKIND) % NKIND); break;
@@ -202,6 +202,37 @@ static void stack_object_construct(int id) {
   if (len(current(Exception)) != depth) viol("C07", "C07:depth-changed", "construct with a stack exception object changed the nesting depth");
   stat_add("exc.throw_stack_object", 1);
 }
+/* filter elements whose own comparison is guarded by a complete try/catch (body completes normally): while the filters of an outer
+ * catch are being compared nothing is pending for that inner construct, so its handler must not run, and the outer handler is still
+ * bound to the thrown object */
+struct GCmp { int64_t k; };
+static __thread int t_gcmp_spurious, t_gcmp_calls;
+static var GCmp;
+static int GCmp_Cmp(var self, var obj) {
+  struct GCmp* a = self; volatile int r = 1;
+  t_gcmp_calls++;
+  try { if (type_of(obj) is GCmp) { struct GCmp* b = obj; r = a->k == b->k ? 0 : (a->k < b->k ? -1 : 1); } } catch (e) { t_gcmp_spurious++; }
+  return r;
+}
+static var GCmp = Cello(GCmp, Instance(Cmp, GCmp_Cmp));
+static void guarded_cmp_construct(int id) {
+  var x = $(GCmp, id), f1 = $(GCmp, id + 1), f2 = $(GCmp, id), f3 = $(GCmp, id + 2);
+  size_t depth = len(current(Exception));
+  var got = NULL; volatile int fell_through = 0;
+  t_gcmp_spurious = 0; t_gcmp_calls = 0;
+  if (id & 1) { try { throw(x, "an object with a guarded comparison thrown by statement %i", $I(id)); } catch (e in f1, f2) { got = e; } }
+  else {
+    /* the inner filters do not match: the exception must continue to the enclosing construct */
+    try { try { throw(x, "an object with a guarded comparison thrown by statement %i", $I(id)); } catch (e in f1, f3) { fell_through = 1; } }
+    catch (e in f2) { got = e; }
+  }
+  if (t_gcmp_spurious) viol("C07", "C07:handler-ran-without-exception", "a try/catch inside a filter element's comparison ran its handler %d time(s) although its body raised nothing", t_gcmp_spurious);
+  if (fell_through) viol("C07", "C07:handler-ran-for-other-kind", "a handler whose filters do not match the thrown object ran");
+  if (got isnt x) viol("C07", "C07:wrong-exception-bound", "filters with a guarded comparison: the handler was bound to %s", got ? "another object" : "nothing");
+  if (t_gcmp_calls == 0) viol("C07", "C07:harness:guarded-cmp-not-called", "the filter comparison was never called");
+  if (len(current(Exception)) != depth) viol("C07", "C07:depth-changed", "construct with guarded filter comparisons changed the nesting depth");
+  stat_add("exc.filter_cmp_with_try", 1);
+}
 struct Shower { int64_t k; };
 static int Shower_Show(var self, var out, int pos) {
   struct Shower* s = self;
@@ -307,7 +338,7 @@ static __attribute__((noinline)) void run_call(Prog* p, TNode* t) {
 static void run_stmt(Prog* p, int idx) {
   TNode* t = &p->n[idx];
   switch (t->kind) {
-    case S_NOP: act_emit(t_self, EV_STMT, t->id, 0); if (t->arg & 1) stack_object_construct(t->id); break;
+    case S_NOP: act_emit(t_self, EV_STMT, t->id, 0); if (t->arg & 1) stack_object_construct(t->id); if (t->arg & 2) guarded_cmp_construct(t->id); break;
     case S_GARBAGE: act_emit(t_self, EV_STMT, t->id, 0); if (!g_nolib) { make_garbage(t->arg, t->f[0]); sim_scrub_stack(); } break;
     case S_THROW:
       act_emit(t_self, EV_THROW, t->id, t->arg); stat_add("exc.throw", 1);
@@ -444,7 +475,11 @@ static void gen_stmt(Plan* p, Rng* r, int tid, int depth, int* budget, int in_ha
   (*budget)--;
   if (depth == 0 && d >= 30 && d < 48 && rng_chance(r, 3, 4)) d = 70;     /* few bare throws at top level */
   if (d >= 24 && d < 30 && plan_env(p, "plainexc", 0) == 0) { int64_t g2 = rng_below(r, NKIND), g1 = rng_below(r, 8); plan_add(p, E_GARBAGE, tid, 0, g1, g2, 0, 0, 0, 0); return; }
-  if (d < 30 || depth >= 5 || *budget < 3) { plan_add(p, E_NOP, tid, 0, (plan_env(p, "plainexc", 0) == 0 && rng_chance(r, 1, 5)) ? 1 : 0, 0, 0, 0, 0, 0); return; }
+  if (d < 30 || depth >= 5 || *budget < 3) {
+    int64_t fl = 0;
+    if (plan_env(p, "plainexc", 0) == 0) { if (rng_chance(r, 1, 5)) fl = 1; else if (rng_chance(r, 1, 6)) fl = 2; }
+    plan_add(p, E_NOP, tid, 0, fl, 0, 0, 0, 0, 0); return;
+  }
   if (d < 48) {
     int fl = 0;
     if (plan_env(p, "plainexc", 0) == 0) { int f1 = rng_chance(r, 1, 4) ? 1 : 0; int f2 = rng_chance(r, 1, 6) ? 2 : 0; int f4 = rng_chance(r, 1, 5) ? 4 : 0; fl = f1 | f2 | f4; }
